@@ -47,6 +47,7 @@ func Run(args map[string]string) {
 	seqlen := hutil.ArgInt(args, "seqlen", 6)
 	faultlen := hutil.ArgInt(args, "faultlen", 3)
 	nsample := hutil.ArgInt(args, "nsample", 300)
+	drvlen := hutil.ArgInt(args, "drvlen", 4)
 	schedbits := hutil.ArgInt(args, "schedbits", 6)
 	rng := hutil.NewRng(seed)
 	out := Output{Dist: map[string]int{}}
@@ -86,16 +87,44 @@ func Run(args map[string]string) {
 			}
 		}
 	})
+	// the proxy-driver mode: all histories of one branch (driver deliveries only), fault-free and
+	// with a fault at every operation of every delivery of the shorter ones
+	enumHist(drvlen, func(h []int) {
+		c := Case{Kind: "seq"}
+		for _, p := range h {
+			c.Hist = append(c.Hist, Delivery{Key: 0, Phase: p, Fault: -1, Drv: true})
+		}
+		add(c, "drv.exhaustive")
+		if len(h) <= drvlen-2 {
+			for i := range h {
+				for k := 0; k <= 9; k++ {
+					cc := Case{Kind: "seq"}
+					for j, p := range h {
+						d := Delivery{Key: 0, Phase: p, Fault: -1, Drv: true}
+						if j == i {
+							d.Fault = k
+						}
+						cc.Hist = append(cc.Hist, d)
+					}
+					add(cc, "drv.fault-each-op")
+				}
+			}
+		}
+	})
 	for n := 0; n < nsample; n++ {
 		r := rng.Fork(uint64(n))
 		c := Case{Kind: "seq"}
 		l := 1 + r.Intn(12)
 		nkeys := 1 + r.Intn(4)
 		malformed := r.Chance(1, 10)
+		mixed := r.Chance(1, 4) // some deliveries go through the proxy driver
 		for j := 0; j < l; j++ {
 			d := Delivery{Key: r.Intn(nkeys), Phase: 1 + r.Intn(3), Fault: -1}
 			if r.Chance(1, 4) {
 				d.Fault = r.Intn(10)
+			}
+			if mixed {
+				d.Drv = r.Chance(1, 3)
 			}
 			if malformed && r.Chance(1, 3) {
 				d.Phase = []int{0, 4, 7}[r.Intn(3)]
@@ -104,6 +133,8 @@ func Run(args map[string]string) {
 		}
 		if malformed {
 			add(c, "sampled.with-invalid-phase")
+		} else if mixed {
+			add(c, "sampled.mixed-api-and-driver")
 		} else {
 			add(c, "sampled.multi-branch")
 		}
